@@ -45,10 +45,20 @@ type Result struct {
 	Via             map[Root][]string // one witness path (function names) for signing roots
 	Targets         map[Root][]string // names of ALL signing entry points reachable from the root (sorted)
 	TargetsNoSeal   map[Root][]string // the same when the function clique.(*Clique).Seal is removed from the graph
+	Cone            Cone              // the key-use cone: every function that can reach a signing entry point, with the call edges among them
 	Missing         []Root            // roots for which no SSA function was found (treated as signing = conservative)
 	RegisterCallers []string          // full names of functions that contain a direct call of (*rpc.Server).RegisterName
 	Algo            string
 	Stats           string
+}
+
+// Cone is the backward slice of the call graph from the signing entry points.
+type Cone struct {
+	Names   []string       // node id -> function (ssa name), sorted
+	Target  []bool         // node id -> is a signing entry point
+	Seal    []bool         // node id -> is clique.(*Clique).Seal
+	Edges   [][2]int       // caller id, callee id (both in the cone), sorted, no duplicates
+	RootIDs map[string]int // Root.String() -> node id, for the RPC methods that lie in the cone
 }
 
 // Analyze loads the program rooted at the given package patterns from repoDir.
@@ -165,6 +175,7 @@ func Analyze(repoDir string, patterns []string, roots []Root, algo string) (*Res
 	}
 	sort.Strings(res.RegisterCallers)
 
+	var coneID map[*callgraph.Node]int
 	// backward reachability from every entry point: which functions can reach it
 	canReach := map[*ssa.Function]map[*callgraph.Node]bool{}
 	for tf := range targets {
@@ -218,6 +229,53 @@ func Analyze(repoDir string, patterns []string, roots []Root, algo string) (*Res
 		canReachNoSeal[tf] = set
 	}
 
+	// the key-use cone as a graph
+	{
+		in := map[*callgraph.Node]bool{}
+		for _, set := range canReach {
+			for n := range set {
+				in[n] = true
+			}
+		}
+		var nodes []*callgraph.Node
+		for n := range in {
+			nodes = append(nodes, n)
+		}
+		sort.Slice(nodes, func(i, j int) bool {
+			if a, b := nodes[i].Func.String(), nodes[j].Func.String(); a != b {
+				return a < b
+			}
+			return nodes[i].ID < nodes[j].ID
+		})
+		id := map[*callgraph.Node]int{}
+		for i, n := range nodes {
+			id[n] = i
+			res.Cone.Names = append(res.Cone.Names, n.Func.String())
+			res.Cone.Target = append(res.Cone.Target, targets[n.Func])
+			res.Cone.Seal = append(res.Cone.Seal, n == sealNode)
+		}
+		seenE := map[[2]int]bool{}
+		for _, n := range nodes {
+			for _, e := range n.Out {
+				if j, ok := id[e.Callee]; ok {
+					k := [2]int{id[n], j}
+					if !seenE[k] {
+						seenE[k] = true
+						res.Cone.Edges = append(res.Cone.Edges, k)
+					}
+				}
+			}
+		}
+		sort.Slice(res.Cone.Edges, func(i, j int) bool {
+			if res.Cone.Edges[i][0] != res.Cone.Edges[j][0] {
+				return res.Cone.Edges[i][0] < res.Cone.Edges[j][0]
+			}
+			return res.Cone.Edges[i][1] < res.Cone.Edges[j][1]
+		})
+		res.Cone.RootIDs = map[string]int{}
+		coneID = id
+	}
+
 	// reachability per root
 	for _, r := range roots {
 		p := prog.ImportedPackage(r.PkgPath)
@@ -259,6 +317,9 @@ func Analyze(repoDir string, patterns []string, roots []Root, algo string) (*Res
 			hit = start
 		}
 		res.Signs[r] = hit != nil
+		if i, ok := coneID[start]; ok {
+			res.Cone.RootIDs[r.String()] = i
+		}
 		for tf, set := range canReach {
 			if set[start] {
 				res.Targets[r] = append(res.Targets[r], tf.Name())
@@ -317,6 +378,7 @@ type cacheFile struct {
 	Via             map[string][]string
 	Targets         map[string][]string
 	TargetsNoSeal   map[string][]string
+	Cone            Cone
 	RegisterCallers []string
 	Algo, Stats     string
 }
@@ -329,7 +391,7 @@ type cacheFile struct {
 // cone (another package, a test, a file excluded by build tags) leaves the key unchanged.
 func sourceHash(repoDir string, patterns []string, roots []Root, algo string) (string, error) {
 	h := sha256.New()
-	fmt.Fprintf(h, "cg-v6|%s|%v|%v\n", algo, patterns, roots)
+	fmt.Fprintf(h, "cg-v7|%s|%v|%v\n", algo, patterns, roots)
 	args := append([]string{"list", "-deps", "-tags", "verif", "-f", "{{if not .Standard}}{{.ImportPath}}|{{.Dir}}|{{range .GoFiles}}{{.}},{{end}}{{range .CgoFiles}}{{.}},{{end}}{{end}}"}, patterns...)
 	cmd := exec.Command("go", args...)
 	cmd.Dir = repoDir
@@ -400,7 +462,7 @@ func AnalyzeCached(repoDir string, patterns []string, roots []Root, algo string)
 		if b, err := os.ReadFile(file); err == nil {
 			var c cacheFile
 			if json.Unmarshal(b, &c) == nil && len(c.Signs) == len(roots) {
-				res := &Result{Signs: map[Root]bool{}, Via: map[Root][]string{}, Targets: map[Root][]string{}, TargetsNoSeal: map[Root][]string{}, RegisterCallers: c.RegisterCallers, Algo: c.Algo, Stats: c.Stats + " (memoised on source hash " + key + ")"}
+				res := &Result{Signs: map[Root]bool{}, Via: map[Root][]string{}, Targets: map[Root][]string{}, TargetsNoSeal: map[Root][]string{}, Cone: c.Cone, RegisterCallers: c.RegisterCallers, Algo: c.Algo, Stats: c.Stats + " (memoised on source hash " + key + ")"}
 				ok := true
 				for _, r := range roots {
 					s, present := c.Signs[r.String()]
@@ -430,7 +492,7 @@ func AnalyzeCached(repoDir string, patterns []string, roots []Root, algo string)
 		return nil, err
 	}
 	if len(res.Missing) == 0 {
-		c := cacheFile{Signs: map[string]bool{}, Via: map[string][]string{}, Targets: map[string][]string{}, TargetsNoSeal: map[string][]string{}, RegisterCallers: res.RegisterCallers, Algo: res.Algo, Stats: res.Stats}
+		c := cacheFile{Signs: map[string]bool{}, Via: map[string][]string{}, Targets: map[string][]string{}, TargetsNoSeal: map[string][]string{}, Cone: res.Cone, RegisterCallers: res.RegisterCallers, Algo: res.Algo, Stats: res.Stats}
 		for r, s := range res.Signs {
 			c.Signs[r.String()] = s
 		}
